@@ -17,6 +17,7 @@ import random
 from .. import tlc
 from ..core import use_repo
 from ..hosts import utmi
+from ..hosts.ulpi_host import LS_SE0, LS_J, LS_K
 from . import usbserial as leaf
 
 ENGINE = "usb2stack"
@@ -25,6 +26,13 @@ META = {}            # owns no property
 CHECKS = {}
 
 VID, PID = leaf.VID, leaf.PID
+# bus-event time constants of USBResetSequencer at 60 MHz; SCALED keeps the us-range values and shrinks the ms-range ones
+SEQ_ATTRS = {"T2P5US": "_CYCLES_2P5_MICROSECONDS", "T5US": "_CYCLES_5_MICROSECONDS", "T200US": "_CYCLES_200_MICROSECONDS",
+             "T1MS": "_CYCLES_1_MILLISECONDS", "T2MS": "_CYCLES_2_MILLISECONDS", "T2P5MS": "_CYCLES_2P5_MILLISECONDS",
+             "T3MS": "_CYCLES_3_MILLISECONDS"}
+REAL_TIMES = {"T2P5US": 150, "T5US": 300, "T200US": 12000, "T1MS": 60000, "T2MS": 120000, "T2P5MS": 150000, "T3MS": 180000}
+SCALED_TIMES = {"T2P5US": 150, "T5US": 300, "T200US": 600, "T1MS": 1500, "T2MS": 2000, "T2P5MS": 2500, "T3MS": 3000}
+FC_FS, FC_HS = 0x45, 0x40    # ULPI Function Control: FS transceiver + pull-up / HS transceiver + HS termination, normal mode
 ULPI_LAT = 6         # PHY-interface latency allowance (clocks) on top of the C05 deadline, see docs/usb2stack.md
 LINE_LAT = 12        # 48 MHz samples
 
@@ -45,19 +53,34 @@ class StackBench(leaf.Bench):
                      ("quiet_in", addr, ep)             IN token for the idle interrupt endpoint / a foreign address
     """
 
-    def __init__(self, phy, maxpkt):
+    def __init__(self, phy, maxpkt, scaled=False):
         use_repo()
         from amaranth.sim import Simulator
         from luna.gateware.usb.devices.acm import USBSerialDevice
         self.phy_kind = phy
         self.maxpkt = maxpkt
+        self.scaled = scaled
+        self.times = dict(SCALED_TIMES if scaled else REAL_TIMES)
         if phy == "ulpi":
             from ..hosts import ulpi_host
             self.bus = ulpi_host.make_ulpi_record()
         else:
             raise NotImplementedError("line-level bench (part B) not built")
         self.dut = USBSerialDevice(bus=self.bus, idVendor=VID, idProduct=PID, max_packet_size=maxpkt)
-        self.sim = Simulator(self.dut)
+        if scaled:
+            # the reset sequencer reads its time constants (class attributes) while it is elaborated: scale the ms-range ones
+            # for this elaboration only (as ss_linklayer does with the TSEQ burst); the us-range ones keep their real values
+            from luna.gateware.usb.usb2.reset import USBResetSequencer
+            saved = {a: getattr(USBResetSequencer, a) for a in SEQ_ATTRS.values()}
+            try:
+                for k, a in SEQ_ATTRS.items():
+                    setattr(USBResetSequencer, a, self.times[k])
+                self.sim = Simulator(self.dut)
+            finally:
+                for a, v in saved.items():
+                    setattr(USBResetSequencer, a, v)
+        else:
+            self.sim = Simulator(self.dut)
         if phy == "ulpi":
             self.sim.add_clock(1 / 60e6, domain="usb")
         else:
@@ -90,6 +113,9 @@ class StackBench(leaf.Bench):
                 out.append({"e": "hp", "kind": "sof", "pid": "SOF", "addr": 0, "ep": 0, "crc_ok": ev["crc_ok"]})
             elif e == "raw":
                 out.append({"e": "hp", "kind": "junk", "pid": "?", "addr": 0, "ep": 0, "crc_ok": False})
+            elif e == "chirp":
+                if not self.in_reset:
+                    out.append({"e": "stray_chirp", "n": ev["n"]})
             elif e == "dev":
                 if ev.get("kind") == "none":
                     continue
@@ -121,6 +147,41 @@ class StackBench(leaf.Bench):
     async def _poll(self, ctx, host, addr):
         return                      # interleaved polls are the leaf engine's business
 
+    async def bus_reset(self, ctx, host, hs_host, pairs=3):
+        """Host bus reset at line-state level: SE0 until the device has chirped (a host watches for the chirp), then either
+        `pairs` chirp K-J pairs (high-speed host) or continued SE0 until the device gave up (full-speed host), end of reset."""
+        T = self.times
+        self._flush(None)
+        self.in_reset = True
+        n0 = len(host.chirps)
+        was = "hs" if host.hs else "fs"
+        await host.line(ctx, LS_SE0, 0)
+        limit = T["T3MS"] + T["T200US"] + T["T5US"] + T["T2MS"] + 2000
+        for _ in range(limit):
+            await host.cycle(ctx)
+            if len(host.chirps) > n0:
+                break
+        chirp = host.chirps[-1] if len(host.chirps) > n0 else None
+        await host.line(ctx, LS_SE0, 50)
+        if hs_host and chirp is not None:
+            for _ in range(pairs):
+                await host.line(ctx, LS_K, T["T2P5US"] + 60)
+                await host.line(ctx, LS_J, T["T2P5US"] + 60)
+            await host.line(ctx, LS_SE0, 600)
+        else:
+            await host.idle(ctx, T["T2P5MS"] + 400)
+        for _ in range(400):                       # let the control translator finish its register writes
+            await host.cycle(ctx)
+        fc = host.phy.regs[4]
+        host.hs = (fc & 3) == 0 and not (fc & 4)   # the PHY model follows the transceiver the device selected
+        if not host.hs:
+            await host.line(ctx, LS_J, 300)        # end of reset on a full-speed bus: idle J
+        self.spd = "hs" if host.hs else "fs"
+        self.trace += self._wire()
+        self.in_reset = False
+        return {"e": "reset", "from": was, "hs_host": bool(hs_host and pairs >= 3), "chirp": chirp["n"] if chirp else 0,
+                "chirp_nonzero": chirp["nonzero"] if chirp else 0, "chirp_stp": chirp["stp_data"] if chirp else 0, "fc": fc}
+
     # -- scenario interpreter (the leaf engine's, with the PHY-side operations added) ----------------
     async def _bench(self, ctx):
         sc = self.scenario
@@ -130,6 +191,7 @@ class StackBench(leaf.Bench):
         host.extra_probe = self._probe
         self.host = host
         self._log_seen = 0
+        self.in_reset = False
         self.gaps = []
         self.rx_p, self.tx_p = sc.get("rx_p", 1.0), sc.get("tx_p", 1.0)
         self.rx_budget = 0 if sc.get("rx_manual") else None
@@ -233,6 +295,39 @@ class StackBench(leaf.Bench):
             elif k == "idle":
                 await host.idle(ctx, op[1])
                 self._flush(None)
+            elif k == "reset":
+                self._flush(await self.bus_reset(ctx, host, op[1], op[2] if len(op) > 2 else 3))
+                addr = 0
+            elif k == "suspend":
+                TM = self.times
+                if host.hs:                 # HS idle = squelch; after 3 ms the device reverts to FS, the line floats to J
+                    await host.idle(ctx, TM["T3MS"] + 100)
+                    await host.line(ctx, LS_J, TM["T200US"] + 300)
+                else:
+                    await host.idle(ctx, TM["T3MS"] + 300)
+                self.suspended_from = "hs" if host.hs else "fs"
+                self._flush({"e": "bus", "ev": "suspend", "fc": host.phy.regs[4]})
+            elif k == "resume":
+                TM = self.times
+                await host.line(ctx, LS_K, op[1] if len(op) > 1 else 400)
+                if host.hs:
+                    await host.line(ctx, LS_SE0, 200)
+                else:
+                    await host.line(ctx, LS_SE0, 20)
+                    await host.line(ctx, LS_J, 100)
+                self._flush({"e": "bus", "ev": "resume", "fc": host.phy.regs[4]})
+            elif k == "vbus":
+                host.vbus = 0x0C if op[1] else 0x00
+                await host.line(ctx, LS_J if op[1] else LS_SE0, op[2] if len(op) > 2 else 500)
+                if not op[1]:
+                    host.hs = False
+                self._flush({"e": "bus", "ev": "vbus_on" if op[1] else "vbus_off", "fc": host.phy.regs[4]})
+            elif k == "connect":
+                ctx.set(self.dut.connect, op[1])
+                await host.idle(ctx, op[2] if len(op) > 2 else 500)
+                if not op[1]:
+                    host.hs = False
+                self._flush({"e": "bus", "ev": "connect" if op[1] else "disconnect", "fc": host.phy.regs[4]})
             elif k == "pat":
                 host.patterns += list(op[1])
             elif k == "nxt":
@@ -268,7 +363,7 @@ class StackBench(leaf.Bench):
             await host.idle(ctx, 300)
             self._flush({"e": "end"})
         self.cycles += host.cycle_no
-        self.result = {"cfg": {"vid": VID, "pid": PID, "phy": self.phy_kind, "speed": "fs",
+        self.result = {"cfg": {"vid": VID, "pid": PID, "phy": self.phy_kind, "speed": "fs", "scaled": self.scaled,
                                "lat": ULPI_LAT if self.phy_kind == "ulpi" else LINE_LAT},
                        "steps": self.trace}
         self.final_addr = addr
@@ -516,10 +611,10 @@ def model_check_finish(rep, started):
 _BENCH = {}
 
 
-def bench(phy, maxpkt):
-    if (phy, maxpkt) not in _BENCH:
-        _BENCH[(phy, maxpkt)] = StackBench(phy, maxpkt)
-    return _BENCH[(phy, maxpkt)]
+def bench(phy, maxpkt, scaled=False):
+    if (phy, maxpkt, scaled) not in _BENCH:
+        _BENCH[(phy, maxpkt, scaled)] = StackBench(phy, maxpkt, scaled)
+    return _BENCH[(phy, maxpkt, scaled)]
 
 
 def run_family(rep, phy, maxpkt, family, ops, seedtag, **kw):
